@@ -272,8 +272,10 @@ func runC16(r *rt.Run, tier string) {
 				// multi-step on the SAME loaded package: earlier answers must not
 				// colour later ones (e.g. a per-object cache keyed by role only)
 				again, errAgain := d.CheckDebsig(keyring, askRole)
-				if errAgain != nil || !sameEntity(again, a.signer) {
-					a.seq = append(a.seq, fmt.Sprintf("second CheckDebsig with the same keyring and role: err=%v", errAgain))
+				// (a repeated check may fail - nothing says a check can be repeated - but
+				// it must not name another signer)
+				if errAgain == nil && !sameEntity(again, a.signer) {
+					a.seq = append(a.seq, "second CheckDebsig with the same keyring and role reports another signer")
 				}
 				if s, err := d.CheckDebsig(openpgp.EntityList{pgpKeys[3]}, askRole); err == nil {
 					a.seq = append(a.seq, fmt.Sprintf("after a successful check, CheckDebsig with an UNRELATED keyring succeeded (signer reported: %v)", s != nil))
